@@ -58,10 +58,13 @@ func VerifyEventSignatures(ctx context.Context, e PDU, verifier JSONVerifier, us
 		if err != nil {
 			return fmt.Errorf("invalid sender userID: %w", err)
 		}
-		if sender != nil {
-			serverName = sender.Domain()
-			needed[serverName] = struct{}{}
+		if sender == nil {
+			// The sender's server must have signed the event. If we don't know
+			// which server that is then we can't check that it did.
+			return fmt.Errorf("unknown sender %q: unable to determine the server that must have signed the event", e.SenderID())
 		}
+		serverName = sender.Domain()
+		needed[serverName] = struct{}{}
 
 		// In room versions 1 and 2, we should also check that the server
 		// that created the event is included too. This is probably the
